@@ -2,12 +2,14 @@
 """seed_matrix.py <seed-id>[,<seed-id>...]|all [PROP,PROP...|own] [tier] — apply each seeded change to /repo, run the checks
 (default: the check of the property the change breaks), undo it; record the result in seeded/<id>/meta.json and print a table."""
 import json, os, subprocess, sys, time
+VERIF = os.path.dirname(os.path.dirname(os.path.abspath(__file__)))
+REPO = os.environ.get("HS_REPO", "/repo")
 
 def run(sid, props, tier):
-    d = "/verif/seeded/" + sid
-    st = subprocess.run("git -C /repo status --porcelain", shell=True, capture_output=True, text=True).stdout.strip()
+    d = VERIF + "/seeded/" + sid
+    st = subprocess.run("git -C %s status --porcelain" % REPO, shell=True, capture_output=True, text=True).stdout.strip()
     assert st == "", "repo not clean: " + st
-    r = subprocess.run("git -C /repo apply %s/patch.diff" % d, shell=True, capture_output=True, text=True)
+    r = subprocess.run("git -C %s apply %s/patch.diff" % (REPO, d), shell=True, capture_output=True, text=True)
     if r.returncode != 0:
         return {p: {"exit": None, "note": "patch does not apply: " + r.stderr[:200]} for p in props}
     res = {}
@@ -15,7 +17,7 @@ def run(sid, props, tier):
         for p in props:
             t0 = time.time()
             try:
-                q = subprocess.run(["/verif/check", p, tier], capture_output=True, text=True, cwd="/verif", timeout=1500)
+                q = subprocess.run([VERIF + "/check", p, tier], capture_output=True, text=True, cwd=VERIF, timeout=1500)
                 out, rc = q.stdout, q.returncode
             except subprocess.TimeoutExpired as e:
                 out, rc = (e.stdout or b"").decode() if isinstance(e.stdout, bytes) else (e.stdout or ""), "timeout"
@@ -24,18 +26,18 @@ def run(sid, props, tier):
             what = [l.strip() for l in out.split("\n") if l.strip().startswith(("what:", "corr[", "proof:"))][:2]
             res[p] = {"exit": rc, "violation": line[0] if line else None, "what": [w[:300] for w in what], "wall_s": round(time.time() - t0, 1)}
     finally:
-        subprocess.run("git -C /repo checkout -- .", shell=True)
+        subprocess.run("git -C %s checkout -- ." % REPO, shell=True)
     return res
 
 def main():
     ids = sys.argv[1]
-    ids = sorted(os.listdir("/verif/seeded")) if ids == "all" else ids.split(",")
+    ids = sorted(os.listdir(VERIF + "/seeded")) if ids == "all" else ids.split(",")
     which = sys.argv[2] if len(sys.argv) > 2 else "own"
     tier = sys.argv[3] if len(sys.argv) > 3 else "quick"
     for sid in ids:
-        mp = "/verif/seeded/%s/meta.json" % sid
+        mp = VERIF + "/seeded/%s/meta.json" % sid
         meta = json.load(open(mp))
-        props = [meta["breaks_property"]] if which == "own" else which.split(",")
+        props = [meta["breaks_property"]] if which == "own" else (["C%02d" % i for i in range(1, 21)] if which == "ALL" else which.split(","))
         res = run(sid, props, tier)
         det = meta.get("detected_by") if isinstance(meta.get("detected_by"), dict) else {}
         for p, r in res.items():
